@@ -168,8 +168,8 @@ def _policy(opi, auto, toggle, c0, c1, ops, path):
     for k in before:
         if after[k][0] != before[k][0]:
             return False                    # creation time never changes as a side effect
-        if after[k][1] < before[k][1]:
-            return False                    # update time never moves backwards
+        if c0 <= c1 and after[k][1] < before[k][1]:
+            return False                    # update time never moves backwards while the clock does not
         if not auto:
             if after[k][1] != before[k][1]:
                 return False                # auto off: nothing changes
@@ -184,7 +184,7 @@ def _policy(opi, auto, toggle, c0, c1, ops, path):
 
 def _ob_listed(opi: int, auto: bool, toggle: bool, c0: int, c1: int) -> bool:
     """
-    pre: 0 <= c0 <= c1
+    pre: 0 <= c0 and 0 <= c1
     pre: 0 <= opi < 60
     post: __return__
     """
@@ -297,7 +297,7 @@ def _real_policy(fn_args, which):
         a = dict(fn_args)
         a["c0"] = min(max(a["c0"], 0), 4000000000)
         if "c1" in a:
-            a["c1"] = min(max(a["c1"], a["c0"]), 4000000000)
+            a["c1"] = min(max(a["c1"], 0), 4000000000)
         try:
             if which == "listed":
                 ok = _policy(a["opi"], a["auto"], a["toggle"], a["c0"], a["c1"], _listed_ops(), path)
